@@ -51,6 +51,35 @@ def run(ctx):
     _c02_predict(ctx, prog.func("mokapot.brew._predict"))
 
 
+def _label_column_ok(tg):
+    """Targets read from file must be ONE COLUMN of the converted frame,
+    read by passing a LIST of column names (the reader is type-checked:
+    columns must be a list):  convert_targets_column(read_data(columns=[c]),
+    c)[c].  Returns (ok, why)."""
+    t = strip_conv(tg)
+    if not (t[0] == "sub" and t[1][0] == "call" and t[1][1] ==
+            "mokapot.utils.convert_targets_column"):
+        return False, ("the whole converted frame (not its label column) "
+                       "is used as the label vector")
+    col = t[2]
+    reads = [x for x in walk_term(t[1]) if isinstance(x, tuple) and x
+             and x[0] == "mcall" and x[2] in ("read_data", "read")]
+    if not reads:
+        return False, "labels are not read from the file"
+    for r in reads:
+        cols = dict(r[4]).get("columns", r[3][0] if r[3] else None)
+        if cols is None:
+            continue        # all columns
+        if cols[0] != "list":
+            return False, (f"read_data(columns={show(cols, 40)}) passes a "
+                           "single name where the type-checked reader "
+                           "requires a list of names: the call always "
+                           "raises")
+        if col not in cols[1]:
+            return False, "the label column is not among the columns read"
+    return True, ""
+
+
 def _same_fact(facts):
     strip = [tuple(x for x in f if not str(x).startswith("targets:"))
              for f in facts]
@@ -89,6 +118,10 @@ def _check_twin(ctx, f):
                       "label column read from file is converted to booleans",
                       f"targets are {show(tg, 120)} without "
                       "convert_targets_column", node=rnode)
+            okc, whyc = _label_column_ok(tg)
+            ctx.check(okc, "C11a-targets-are-the-label-column", f,
+                      "the labels are the converted label column, read "
+                      "with a list of column names", whyc, node=rnode)
         return ("delegates", rt[1])
     ctx.require(rt[0] == "bin" and rt[1] == "/",
                 f"{f.qual}: calibration is not a quotient: {show(rt, 160)}")
@@ -177,6 +210,10 @@ def _check_twin(ctx, f):
                       "label column read from file is converted to booleans",
                       f"targets are {show(tg, 120)} without "
                       "convert_targets_column", node=rnode)
+            okc, whyc = _label_column_ok(tg)
+            ctx.check(okc, "C11a-targets-are-the-label-column", f,
+                      "the labels are the converted label column, read "
+                      "with a list of column names", whyc, node=rnode)
     # emptiness guard raises before the anchors are computed
     cfg = CFG(f.node)
     raises = [n for n in ast.walk(f.node) if isinstance(n, ast.Raise)]
